@@ -316,7 +316,7 @@ theorem afterEvent_sets_eoeor (env : Env) (hooks : List Hook) (e : Ev) (errs : L
   have hbk : ∀ env' f, env'.vars.eoeor ≠ .absent → (bkAfter env' e f).1.vars.eoeor.isVal = true := by
     intro env' f hp'
     rcases he with rfl | rfl
-    · unfold bkAfter; simp [tick, TV.isVal]
+    · unfold bkAfter; simp only []; exact setEoeor_sets _ _ _ hp'
     · unfold bkAfter; simp only []; exact setEoeor_sets _ _ _ hp'
   unfold afterEvent
   simp only
